@@ -104,7 +104,7 @@ Inductive icls := I (c : cls) | Defect (n : N) (c : cls).
 
 Definition intended : list (string * string * icls) :=
   [
-   ("InterchainManager", "DeleteInterchain", Defect 10 (Internal ["ServiceMgrContractAddr"; "AppchainMgrContractAddr"]));
+   ("InterchainManager", "DeleteInterchain", Defect 10 (Internal []));
    ("InterchainManager", "GetAllServiceIDs", I Query);
    ("InterchainManager", "GetBitXHubID", I Query);
    ("InterchainManager", "GetIBTPByID", I Query);
